@@ -904,6 +904,12 @@ class Interp:
                             raise Unmodelled("scalar / tensor")
                         return VTensor(_scale(t.val, c if isinstance(op, ast.Mult) else c.inv()), t.dtype)
                 a, b = l.dense(), r.dense()
+                if isinstance(op, ast.Mult) and a.ndim() != b.ndim() and min(a.ndim(), b.ndim()) >= 1:
+                    # torch broadcasting: the operand with fewer axes gets leading unit axes
+                    while a.ndim() < b.ndim():
+                        a = net.insert_axis(a, 0)
+                    while b.ndim() < a.ndim():
+                        b = net.insert_axis(b, 0)
                 if isinstance(op, ast.Mult) and a.ndim() == b.ndim():
                     return VTensor(net.mul_elementwise(self.sp, a, b), l.dtype)
                 raise Unmodelled("elementwise product of tensors")
